@@ -32,6 +32,8 @@ def trace_and_tie(ctx, need_pipes=True):
         ctx.obligation('translator:trace-wave(%d kernel definitions, %d pipeline terms)' % (len(g.defs), len(defs)), True)
         bad = [(f, d) for f, d in disp.items() if not (d['propagation_type'] == recipe.TYPE_OF[f] and d['distance_is_z'] and d['wavelength_is_lam'] and d['dx_is_dx'] and d['nu_nv'] == [4, 6])]
         ctx.obligation('translator:kernel-request-arguments(each method asks for its own kernel type with the caller\'s dx, wavelength, distance and the field\'s shape)', not bad, str(bad))
+        dn = recipe.dispatchers()
+        ctx.obligation('translator:dispatchers(get_propagation_kernel and odak.wave.propagate_beam return exactly what the builder / method of the requested type returns, called with the caller\'s arguments: %d types)' % len(dn), all(dn.values()), str({k: v for k, v in dn.items() if not v}))
         ctx.extra['traced_pipelines'] = {n: t for n, _, t in defs if n in ('t_custom', 't_beam_padcrop_angular_spectrum', 'n_transfer_function_fresnel', 'n_impulse_response_fresnel')}
     except Exception as e:
         ctx.obligation('translator:trace-wave', False, repr(e))
